@@ -102,7 +102,7 @@ theorem specRoutes_rids (script : List Reg) : ∀ (i : Nat) (R : List Route), sp
   | cons g gs ih =>
     intro i R h
     simp only [specRoutesFrom] at h
-    cases hp : parsePattern (g.groups.foldr (· ++ ·) g.path) with
+    cases hp : parsePattern (regText g) with
     | none => simp [hp] at h
     | some p =>
       cases hr : specRoutesFrom (i + 1) gs with
